@@ -6,6 +6,7 @@ import (
 	"fmt"
 	"strconv"
 	"strings"
+	"sync"
 	"time"
 
 	"github.com/bluenviron/mediamtx/internal/conf"
@@ -79,8 +80,11 @@ type Handler struct {
 	running   bool
 	query     string
 
+	matchesMutex sync.Mutex
+
 	// in
 	chReloadConf          chan *conf.Path
+	chReloadMatches       chan struct{}
 	chInstanceSetReady    chan defs.PathSourceStaticSetReadyReq
 	chInstanceSetNotReady chan defs.PathSourceStaticSetNotReadyReq
 
@@ -91,6 +95,7 @@ type Handler struct {
 // Initialize initializes Handler.
 func (s *Handler) Initialize() {
 	s.chReloadConf = make(chan *conf.Path)
+	s.chReloadMatches = make(chan struct{})
 	s.chInstanceSetReady = make(chan defs.PathSourceStaticSetReadyReq)
 	s.chInstanceSetNotReady = make(chan defs.PathSourceStaticSetNotReadyReq)
 
@@ -236,8 +241,18 @@ func (s *Handler) run() {
 	runErr := make(chan error)
 	runReloadConf := make(chan *conf.Path)
 
+	var resolvedSource string
+	restart := false
+
+	resolve := func() string {
+		s.matchesMutex.Lock()
+		defer s.matchesMutex.Unlock()
+		return resolveSource(s.Conf.Source, s.Matches, s.query)
+	}
+
 	recreate := func() {
-		resolvedSource := resolveSource(s.Conf.Source, s.Matches, s.query)
+		resolvedSource = resolve()
+		restart = false
 
 		runCtx, runCtxCancel = context.WithCancel(context.Background())
 		go func() {
@@ -259,9 +274,13 @@ func (s *Handler) run() {
 		select {
 		case err := <-runErr:
 			runCtxCancel()
-			s.instance.Log(logger.Error, err.Error())
-			recreating = true
-			recreateTimer = time.NewTimer(retryPause)
+			if restart {
+				recreate()
+			} else {
+				s.instance.Log(logger.Error, err.Error())
+				recreating = true
+				recreateTimer = time.NewTimer(retryPause)
+			}
 
 		case req := <-s.chInstanceSetReady:
 			s.Parent.StaticSourceHandlerSetReady(s.ctx, req)
@@ -280,6 +299,14 @@ func (s *Handler) run() {
 					case <-cInnerCtx.Done():
 					}
 				}()
+			}
+
+		case <-s.chReloadMatches:
+			// the regular expression groups have changed:
+			// restart the source if it is connected to a source that is no longer the resolved one.
+			if !recreating && !restart && resolve() != resolvedSource {
+				restart = true
+				runCtxCancel()
 			}
 
 		case <-recreateTimer.C:
@@ -307,6 +334,26 @@ func (s *Handler) ReloadConf(newConf *conf.Path) {
 	go func() {
 		select {
 		case s.chReloadConf <- newConf:
+		case <-ctx.Done():
+		}
+	}()
+}
+
+// ReloadMatches is called by path when the regular expression groups of the path have changed.
+func (s *Handler) ReloadMatches(newMatches []string) {
+	s.matchesMutex.Lock()
+	s.Matches = newMatches
+	s.matchesMutex.Unlock()
+
+	ctx := s.ctx
+
+	if !s.running {
+		return
+	}
+
+	go func() {
+		select {
+		case s.chReloadMatches <- struct{}{}:
 		case <-ctx.Done():
 		}
 	}()
